@@ -854,17 +854,28 @@ Proof.
   destruct H as [H|H]; discriminate H.
 Qed.
 
-(* non-vacuity: crash between the two renames -> the backup is promoted and old is loaded;
-   crash after the second rename -> new is loaded *)
-Lemma crash_example_old :
-  co_loaded (crash_scn (code Json) c_main_only TOld TNew TNext TSb TSt 3 10 0 0 LoseAll e_json e_json 1) = LOk [TOld].
-Proof. vm_compute. reflexivity. Qed.
-Lemma crash_example_new :
-  co_loaded (crash_scn (code Json) c_main_only TOld TNew TNext TSb TSt 3 11 0 0 LoseAll e_json e_json 1) = LOk [TNew].
-Proof. vm_compute. reflexivity. Qed.
-Lemma crash_example_lost_rename :
-  co_loaded (crash_scn (code Json) c_main_only TOld TNew TNext TSb TSt 3 11 0 1 LoseAll e_json e_json 1) = LOk [TOld].
-Proof. vm_compute. reflexivity. Qed.
+(* non-vacuity (statement positions are searched, not hard-coded: a harmless rewrite of save_sensors
+   moves them): some crash leaves old with the complete new temp file beside it; some crash leaves new
+   with the old state still in the backup; for some crash point the loss of the last directory
+   operation turns new into old *)
+Ltac find_pos n fuel :=
+  match fuel with
+  | O => fail
+  | S ?f => first [ exists n; vm_compute; repeat split; reflexivity | find_pos (S n) f ]
+  end.
+
+Lemma crash_example_old : exists i,
+  let o := crash_scn (code Json) c_main_only TOld TNew TNext TSb TSt 3 i 0 0 LoseAll e_json e_json 1 in
+  co_loaded o = LOk [TOld] /\ co_cfg o = Some (mkCfg true None (Some KGood)).
+Proof. find_pos 0 40. Qed.
+Lemma crash_example_new : exists i,
+  let o := crash_scn (code Json) c_main_only TOld TNew TNext TSb TSt 3 i 0 0 LoseAll e_json e_json 1 in
+  co_loaded o = LOk [TNew] /\ co_cfg o = Some (mkCfg true (Some KGood) None).
+Proof. find_pos 0 40. Qed.
+Lemma crash_example_lost_rename : exists i,
+  co_loaded (crash_scn (code Json) c_main_only TOld TNew TNext TSb TSt 3 i 0 0 LoseAll e_json e_json 1) = LOk [TNew] /\
+  co_loaded (crash_scn (code Json) c_main_only TOld TNew TNext TSb TSt 3 i 0 1 LoseAll e_json e_json 1) = LOk [TOld].
+Proof. find_pos 0 40. Qed.
 
 (* ------------------------------------------------------------------ C13 *)
 Definition tag_classes (dmg : list cls) (s : tag) : list (fclass tag) := FMissing :: FGood s :: map FBad dmg.
